@@ -201,6 +201,21 @@ fn corrupt(cx: &mut Cx, holder: NodeId, key: Arc<KeyMat>, issued: Arc<Cred>, sin
             send(cx, d, format!("forged_shift_by_e:k={k}@{i}"));
         }
     }
+    // Mallory, from the public key alone: with e = 1 the "signature" v = prod a_i^m_i * b^s * c verifies
+    // unless the exponent range is enforced; and an issued signature rewritten as (1, v^e)
+    {
+        let mut rhs = Integer::from(1);
+        for i in 0..n { rhs = rhs * pow(&issued.bases[i], &issued.msgs[i], nmod) % nmod; }
+        let s_any = Integer::from(12345);
+        rhs = rhs * pow(&issued.pk.b, &s_any, nmod) % nmod * &issued.pk.c % nmod;
+        let mut d = (*issued).clone(); d.e = Integer::from(1); d.s = s_any; d.v = rhs;
+        send(cx, d, "forged_public_key_only:e=1".into());
+        let mut d = (*issued).clone(); d.v = pow(&issued.v, &issued.e, nmod); d.e = Integer::from(1);
+        send(cx, d, "forged_rewrite:(1,v^e)".into());
+        // e' = 2e with v' a square root is not computable; but (e/1 .. ) small exponents must all be refused
+        let mut d = (*issued).clone(); d.e = Integer::from(3); d.v = Integer::from(2);
+        send(cx, d, "sig_field:e=3".into());
+    }
     // the same through s: (v * b^k, s + k*e) is the SAME statement with another signature: not a forgery
     // of a new attribute vector, but it must not be confused with the issued signature either
     { let mut d = (*issued).clone(); d.v = Integer::from(&d.v * &issued.pk.b) % nmod; d.s += Integer::from(&issued.e); let _ = d; }
